@@ -30,6 +30,9 @@ paths=[meta.get("demo_path")]+[e.get("demo_path") for e in meta.get("extra_demos
 for p in paths:
     if not p: continue
     src=os.path.join(demo,os.path.basename(p))
+    if not os.path.exists(src):
+        for root,_,files in os.walk(demo):
+            if os.path.basename(p) in files: src=os.path.join(root,os.path.basename(p))
     if os.path.exists(src):
         os.makedirs(os.path.dirname(os.path.join(w,p)),exist_ok=True)
         shutil.copy(src,os.path.join(w,p)); print("placed",p)
@@ -66,6 +69,12 @@ git -C "$W" clean -fdq
 say "== repository test suite with the patch"
 ( cd "$W" && go test -vet=off -count=1 -p 6 -timeout 25m -skip 'TestGetChunkSignature_PersistAttestedBlocks' ./... ) > "$DST/suite.log" 2>&1
 SUITE=pass; grep -E "^(FAIL|---  FAIL|--- FAIL|panic:)" "$DST/suite.log" >> "$LOG" && SUITE=fail
+if [ "$SUITE" = fail ]; then
+  # packages that fail only because of machine load / the fixed pubsub port are rerun alone
+  PK=$(grep -E "^FAIL\s+github.com" "$DST/suite.log" | awk '{print $2}' | sed 's#github.com/ava-labs/hypersdk#.#' | sort -u | tr '\n' ' ')
+  say "rerunning alone: $PK"
+  if ( cd "$W" && go test -vet=off -count=1 -p 1 -timeout 25m -skip 'TestGetChunkSignature_PersistAttestedBlocks' $PK ) > "$DST/suite-rerun.log" 2>&1; then SUITE="pass (after rerunning $PK alone)"; else grep -E "^(FAIL|--- FAIL|panic:)" "$DST/suite-rerun.log" >> "$LOG"; fi
+fi
 say "suite: $SUITE ($(grep -c '^ok' "$DST/suite.log") packages ok)"
 say "== our checks against the patched tree"
 RES=""
